@@ -1,9 +1,31 @@
 import RxModel.Sched.Chain
+import RxModel.Lemmas.Async
+import RxModel.Lemmas.ChainSourcesMain
+import RxModel.Lemmas.ChainSourcesPromptIv
+import RxModel.Lemmas.ChainSourcesPromptTm
 /-
   C08 — Time and async sources emit exactly what and when they promise.
-  (theorems are added as they are proved; see DESIGN §6 C08)
+
+  Model: the world `TW` of suite `time` (RxModel/Sched/Chain.lean, checked against
+  the real crate on every run) with NO operator between the source and the probe
+  (`TW.start src`, i.e. `stages := []`): every tick / item goes straight to the
+  probe log `TW.log`.  `TW.run w evs = evs.foldl TW.step w`, `TW.clock w` is the
+  virtual clock, `TW.ticks m = [next 0, …, next (m-1)]`.
+
+  The event lists are ARBITRARY lists of `TW.Ev`: `sub`, `unsub`, `adv k` (the
+  clock jumps by any amount), `fire i` (the executor fires the i-th due timer),
+  `poll i` (it polls the i-th live task, woken or not), `run` (the prompt FIFO
+  loop), and even `emit` (ignored by these sources): every order in which the
+  executor fires due timers and polls tasks, every way the clock advances.
+
+  `t_sub` is the clock value at the first `sub`: the event list is written
+  `pre ++ sub :: post` with no `sub` in `pre`, and `t_sub = clock (run w pre)`.
+  For `interval delay p`: `delay = none` is `interval(p)` (first tick one period
+  after subscription), `delay = some a` is `interval_at` (first tick `a` after
+  subscription); `first = delay.getD p`.
 -/
 namespace Rx.T
+open Rx TW
 
 /-- The interval source numbers its ticks with the RepeatTask sequence counter:
     a tick that continues bumps it by exactly one. -/
@@ -15,5 +37,308 @@ theorem C08_tick_seq (s : Sched) (k : TaskId) (t : Task) (fur iv seq : Nat)
   simp only [Sched.continueRepeat, h, hr, Sched.newTimer, Sched.registerTimer, Sched.setTask,
     Sched.setTimer]
   split <;> simp [hk]
+
+/-! ## interval / interval_at: what -/
+
+/-- (I1) Whatever the executor and the clock do, the probe of `interval` / `interval_at` has
+    seen exactly `next 0, next 1, …, next (m-1)` for some `m`: consecutive integers from 0,
+    in order, nothing else, no terminal. -/
+theorem C08_interval_seq (delay : Option Nat) (p : Nat) (evs : List Ev) :
+    ∃ m, (run (start (.interval delay p)) evs).log = ticks m :=
+  interval_seq_main delay p evs
+
+/-- Nothing is emitted before `sub` (any source that is not a subject). -/
+theorem C08_silent_before_sub (src : TSrc) (hsrc : ∀ i, src ≠ .hot i) (pre : List Ev)
+    (hpre : ∀ e ∈ pre, e ≠ .sub) : (run (start src) pre).log = [] :=
+  presub_log src hsrc pre hpre
+
+/-! ## timer: what -/
+
+/-- (I4, what) The probe of `timer(v, d)` has seen nothing, or exactly `next v, complete`. -/
+theorem C08_timer_once (v : Val) (d : Nat) (evs : List Ev) :
+    (run (start (.timer v d)) evs).log = [] ∨
+    (run (start (.timer v d)) evs).log = [.next v, .complete] :=
+  timer_once_main v d evs
+
+/-- (I4, when) … and nothing while the clock is below `t_sub + d`, however the executor
+    runs and whatever happened before the subscription. -/
+theorem C08_timer_never_early (v : Val) (d : Nat) (pre post : List Ev)
+    (hpre : ∀ e ∈ pre, e ≠ .sub)
+    (h : (run (start (.timer v d)) (pre ++ .sub :: post)).clock <
+      (run (start (.timer v d)) pre).clock + d) :
+    (run (start (.timer v d)) (pre ++ .sub :: post)).log = [] :=
+  timer_never_early_main v d pre post hpre h
+
+/-! ## interval / interval_at: never early -/
+
+/-- (I2) Tick `k` is not in the log while the clock is below `t_sub + first + k·p`
+    (`interval`: `first = p`, one period after subscription; `interval_at`: `first` = the
+    given offset), however late or in whatever order the executor runs. -/
+theorem C08_interval_never_early (delay : Option Nat) (p : Nat) (pre post : List Ev)
+    (hpre : ∀ e ∈ pre, e ≠ .sub) (k : Nat)
+    (h : (run (start (.interval delay p)) (pre ++ .sub :: post)).clock <
+      (run (start (.interval delay p)) pre).clock + delay.getD p + k * p) :
+    (run (start (.interval delay p)) (pre ++ .sub :: post)).log.length ≤ k :=
+  interval_never_early_main delay p pre post hpre k h
+
+/-- (I2, by prefixes) The same for every prefix `q` of the event list, including those that
+    end before the `sub`. -/
+theorem C08_interval_never_early_prefix (delay : Option Nat) (p : Nat) (pre post : List Ev)
+    (hpre : ∀ e ∈ pre, e ≠ .sub) (q : List Ev) (hq : q <+: pre ++ .sub :: post) (k : Nat)
+    (h : (run (start (.interval delay p)) q).clock <
+      (run (start (.interval delay p)) pre).clock + delay.getD p + k * p) :
+    (run (start (.interval delay p)) q).log.length ≤ k :=
+  interval_never_early_prefix_main delay p pre post hpre q hq k h
+
+/-- (spacing) Never earlier than one period after the previous tick, however late the
+    executor runs: if tick `k` has not been delivered when `pre` ends (at clock `c`), then tick
+    `k+1` is not delivered while the clock is below `c + p` — in every window shorter than a
+    period there is at most one tick.  (A late executor does not catch up, see the examples.) -/
+theorem C08_interval_spacing (delay : Option Nat) (p : Nat) (pre post : List Ev) (k : Nat)
+    (hk : (run (start (.interval delay p)) pre).log.length ≤ k)
+    (h : (run (start (.interval delay p)) (pre ++ post)).clock <
+      (run (start (.interval delay p)) pre).clock + p) :
+    (run (start (.interval delay p)) (pre ++ post)).log.length ≤ k + 1 :=
+  interval_spacing_main delay p pre post k hk h
+
+/-! ## unsubscribe -/
+
+/-- (I5) After `unsub` of a subscribed `interval` / `interval_at` the log never grows. -/
+theorem C08_unsub_stops_interval (delay : Option Nat) (p : Nat) (pre mid post : List Ev) :
+    (run (start (.interval delay p)) ((pre ++ .sub :: mid) ++ .unsub :: post)).log =
+    (run (start (.interval delay p)) (pre ++ .sub :: mid)).log :=
+  interval_unsub_main delay p pre mid post
+
+/-- (I5) After `unsub` of a subscribed `timer` the log never grows. -/
+theorem C08_unsub_stops_timer (v : Val) (d : Nat) (pre mid post : List Ev) :
+    (run (start (.timer v d)) ((pre ++ .sub :: mid) ++ .unsub :: post)).log =
+    (run (start (.timer v d)) (pre ++ .sub :: mid)).log :=
+  timer_unsub_main v d pre mid post
+
+/-! ## exactly when: the prompt executor -/
+
+/-- (I3) The prompt unit-step schedule: subscribe at `t0`, run the executor, then `n` rounds of
+    "the clock advances by 1, the executor runs" (`prompt n`).  For a period `p ≥ 1` the log
+    after round `n` has exactly one tick for every instant `t0 + first + k·p ≤ t0 + n`:
+    none while `n < first`, then `(n - first)/p + 1`.  Together with (I1) and (I2): tick `k` is
+    delivered exactly at `t_sub + first + k·p` — `interval`: one period after subscription and
+    every period after that; `interval_at`: at the given offset and every period after that.
+    (`p = 0` is excluded: the real RepeatTask then re-arms an already-due timer for ever; the
+    model's `run` stops only because `runLoop` has fuel.) -/
+theorem C08_interval_prompt (delay : Option Nat) (p t0 n : Nat) (hp : 1 ≤ p) :
+    (run (start (.interval delay p)) ([.adv t0, .sub, .run] ++ prompt n)).log =
+      ticks (if n < delay.getD p then 0 else (n - delay.getD p) / p + 1) :=
+  interval_prompt_main delay p t0 n hp
+
+/-- (I4, exactly when) Under the prompt schedule `timer(v, d)` has delivered nothing before
+    round `d` and `next v, complete` from round `d` on (in particular for `d = 0`: at the first
+    run of the executor). -/
+theorem C08_timer_prompt (v : Val) (d t0 n : Nat) :
+    (run (start (.timer v d)) ([.adv t0, .sub, .run] ++ prompt n)).log =
+      if n < d then [] else [.next v, .complete] :=
+  timer_prompt_main v d t0 n
+
+/-! ## non-vacuity (concrete event lists, evaluated) -/
+
+/-- `interval(2)` subscribed at 0, prompt executor: ticks 0, 1, 2 at 2, 4, 6 — not at 1, 3, 5. -/
+example : (run (start (.interval none 2)) ([.sub, .run] ++ prompt 1)).log = [] := by decide
+example : (run (start (.interval none 2)) ([.sub, .run] ++ prompt 2)).log = ticks 1 := by decide
+example : (run (start (.interval none 2)) ([.sub, .run] ++ prompt 3)).log = ticks 1 := by decide
+example : (run (start (.interval none 2)) ([.sub, .run] ++ prompt 4)).log = ticks 2 := by decide
+example : (run (start (.interval none 2)) ([.sub, .run] ++ prompt 5)).log = ticks 2 := by decide
+example : (run (start (.interval none 2)) ([.sub, .run] ++ prompt 6)).log = ticks 3 := by decide
+
+/-- `interval_at(now + 0, 3)`: ticks at 0, 3, 6 (the first one at the first run of the executor). -/
+example : (run (start (.interval (some 0) 3)) [.sub, .run]).log = ticks 1 := by decide
+example : (run (start (.interval (some 0) 3)) ([.sub, .run] ++ prompt 2)).log = ticks 1 := by decide
+example : (run (start (.interval (some 0) 3)) ([.sub, .run] ++ prompt 3)).log = ticks 2 := by decide
+example : (run (start (.interval (some 0) 3)) ([.sub, .run] ++ prompt 5)).log = ticks 2 := by decide
+example : (run (start (.interval (some 0) 3)) ([.sub, .run] ++ prompt 6)).log = ticks 3 := by decide
+
+/-- `interval_at(now + 5, 2)` subscribed at 10: nothing at 14, tick 0 at 15, tick 1 at 17. -/
+example : (run (start (.interval (some 5) 2)) ([.adv 10, .sub, .run] ++ prompt 4)).log = [] := by decide
+example : (run (start (.interval (some 5) 2)) ([.adv 10, .sub, .run] ++ prompt 5)).log = ticks 1 := by
+  decide
+example : (run (start (.interval (some 5) 2)) ([.adv 10, .sub, .run] ++ prompt 7)).log = ticks 2 := by
+  decide
+
+/-- A late executor does NOT catch up: after a jump over three and a half periods `interval(2)`
+    delivers ONE tick (at 7), re-arms from there, and tick 1 comes at 9 = 7 + 2, not at 8:
+    "one period after the previous", never earlier. -/
+example : (run (start (.interval none 2)) [.sub, .run, .adv 7, .run]).log = ticks 1 := by decide
+example : (run (start (.interval none 2)) [.sub, .run, .adv 7, .run, .adv 1, .run]).log = ticks 1 := by
+  decide
+example : (run (start (.interval none 2)) [.sub, .run, .adv 7, .run, .adv 2, .run]).log = ticks 2 := by
+  decide
+
+/-- By hand, in a "wrong" order: polling before the timer fired, firing twice, polling twice. -/
+example : (run (start (.interval none 2))
+    [.sub, .poll 0, .adv 1, .fire 0, .poll 0, .adv 1, .poll 0, .fire 0, .fire 0, .poll 0, .poll 0]).log
+    = ticks 1 := by decide
+
+/-- `timer(7, 3)`: nothing at 2, `next 7, complete` at 3, nothing more afterwards. -/
+example : (run (start (.timer (.int 7) 3)) ([.sub, .run] ++ prompt 2)).log = [] := by decide
+example : (run (start (.timer (.int 7) 3)) ([.sub, .run] ++ prompt 3)).log
+    = [.next (.int 7), .complete] := by decide
+example : (run (start (.timer (.int 7) 3)) ([.sub, .run] ++ prompt 9)).log
+    = [.next (.int 7), .complete] := by decide
+
+/-- The delay of `timer` starts when the spawned task is first polled (`new_timer(d).await`
+    inside the future), not at `subscribe`: an executor that polls it for the first time at 2
+    delivers at 5, not at 3 — late, never early. -/
+example : (run (start (.timer (.int 7) 3))
+    [.sub, .adv 2, .poll 0, .adv 1, .fire 0, .poll 0]).log = [] := by decide
+example : (run (start (.timer (.int 7) 3))
+    [.sub, .adv 2, .poll 0, .adv 1, .fire 0, .poll 0, .adv 2, .fire 0, .poll 0]).log
+    = [.next (.int 7), .complete] := by decide
+
+/-- `unsub` between two ticks / before the timer is due: nothing more, although the armed
+    timer still fires. -/
+example : (run (start (.interval none 2)) ([.sub, .run] ++ prompt 2 ++ [.unsub] ++ prompt 6)).log
+    = ticks 1 := by decide
+example : (run (start (.timer (.int 7) 3)) ([.sub, .run] ++ prompt 2 ++ [.unsub] ++ prompt 6)).log
+    = [] := by decide
+
+/-! ### Async sources: from_future(_result), from_stream(_result)
+
+  `relayStream res script` / `relayFuture res script` (Lemmas/Async.lean) are what the
+  property promises, read off the script alone: the values in order up to the
+  first `Err`, then that error, else `complete` at the end (a future: its single
+  output, then `complete`, or the error); `pending` steps do not show.  A *bare*
+  source (`stages = []`) has the probe as its observer, so the log is what the
+  driver handed to its observer.  `drivePolls poll n` = the executor polls the
+  task `n` times, whenever it likes (what other tasks do in between does not
+  touch the script position or a bare source's observer). -/
+
+/-- One lap of the stream driver loop (induction over the script): whatever the
+    outcome — finished, script exhausted, `Pending` at a `pending` step — what has
+    been delivered so far followed by what the rest of the script promises is
+    exactly what the script promised at the start of the lap. -/
+theorem C08_stream_lap (res : Bool) (rest : List AStep) (w : TW) (h : w.stages = []) :
+    LapOK res rest w (TW.streamLap res rest w) :=
+  streamLap_bare res rest w h
+
+/-- from_stream / from_stream_result never deliver anything but a prefix of the
+    promise, however often and whenever the executor polls the driver (`n`
+    arbitrary, any number of `pending` steps anywhere in the script); when the
+    driver has finished, exactly the promise has been delivered: the scripted
+    values up to the first `Err`, then the terminal, nothing after. -/
+theorem C08_stream_relay (res : Bool) (script : List AStep) (f n : Nat) (w : TW)
+    (h : w.stages = []) (hs : w.srcRest = script) (hl : w.log = []) :
+    let r := drivePolls (TW.pollStream res script false (f + 1)) n w
+    (r.2 = true → r.1.log = relayStream res script) ∧
+    (r.2 = false → r.1.log ++ relayStream res r.1.srcRest = relayStream res script) := by
+  have := drivePolls_ok (relayStream res) noHang (TW.pollStream res script false (f + 1))
+    (fun w hw => pollStream_bare res script f w hw) n w h
+  simp only [hs, hl, List.nil_append] at this
+  exact ⟨this.2.1, this.2.2⟩
+
+/-- … and it does get there: a stream that does not stay silent for ever is
+    relayed completely, terminal included, once the driver has been polled more
+    often than the script has `pending` steps — for ANY number of them. -/
+theorem C08_stream_completes (res : Bool) (script : List AStep) (f n : Nat) (w : TW)
+    (h : w.stages = []) (hs : w.srcRest = script) (hl : w.log = [])
+    (hg : noHang script = true) (hn : pendings script < n) :
+    let r := drivePolls (TW.pollStream res script false (f + 1)) n w
+    r.2 = true ∧ r.1.log = relayStream res script := by
+  have hp := fun w hw => pollStream_bare res script f w hw
+  have hd := drivePolls_complete (relayStream res) noHang _ hp n w h (by rw [hs]; exact hg)
+    (by rw [hs]; exact hn)
+  exact ⟨hd, (C08_stream_relay res script f n w h hs hl).1 hd⟩
+
+/-- The promise of a stream is well-formed and stops at the first error: values,
+    then exactly one terminal (if the stream does not hang), nothing after. -/
+theorem C08_stream_promise_wf (res : Bool) (script : List AStep) : WF (relayStream res script) := by
+  induction script with
+  | nil => simp [relayStream, WF]
+  | cons st r ih =>
+    cases st with
+    | ready v => simpa [relayStream, WF] using ih
+    | pending => simpa [relayStream] using ih
+    | hang => simp [relayStream, WF]
+    | err e => cases res <;> simp [relayStream, WF, ih]
+
+/-- from_future / from_future_result: at any moment a prefix of the promise;
+    when the FutureTask has finished: its single value then `complete`, or the
+    error — exactly once. -/
+theorem C08_future_relay (res : Bool) (script : List AStep) (n : Nat) (w : TW)
+    (h : w.stages = []) (hs : w.srcRest = script) (hl : w.log = []) :
+    let r := drivePolls (fun w => w.pollFuture res) n w
+    (r.2 = true → r.1.log = relayFuture res script) ∧
+    (r.2 = false → r.1.log ++ relayFuture res r.1.srcRest = relayFuture res script) := by
+  have := drivePolls_ok (relayFuture res) resolves (fun w => w.pollFuture res)
+    (fun w hw => pollFuture_bare res w hw) n w h
+  simp only [hs, hl, List.nil_append] at this
+  exact ⟨this.2.1, this.2.2⟩
+
+/-- A future that becomes ready with `v` after `k` pending polls (any `k`):
+    polled more than `k` times, the source has emitted `v` once and completed. -/
+theorem C08_future_once (res : Bool) (k n : Nat) (v : Val) (w : TW)
+    (h : w.stages = []) (hs : w.srcRest = List.replicate k .pending ++ [.ready v])
+    (hl : w.log = []) (hn : k < n) :
+    let r := drivePolls (fun w => w.pollFuture res) n w
+    r.2 = true ∧ r.1.log = [.next v, .complete] := by
+  have hrel : ∀ k, relayFuture res (List.replicate k .pending ++ [.ready v]) = [.next v, .complete] := by
+    intro k; induction k with
+    | zero => simp [relayFuture]
+    | succ k ih => simpa [List.replicate_succ, relayFuture] using ih
+  have hres : ∀ k, resolves (List.replicate k .pending ++ [.ready v]) = true := by
+    intro k; induction k with
+    | zero => simp [resolves]
+    | succ k ih => simpa [List.replicate_succ, resolves] using ih
+  have hpen : ∀ k, pendings (List.replicate k .pending ++ [.ready v]) = k := by
+    intro k; induction k with
+    | zero => simp [pendings]
+    | succ k ih => simp [List.replicate_succ, pendings, ih]
+  have hd := drivePolls_complete (relayFuture res) resolves (fun w => w.pollFuture res)
+    (fun w hw => pollFuture_bare res w hw) n w h (by rw [hs]; exact hres k)
+    (by rw [hs, hpen k]; exact hn)
+  refine ⟨hd, ?_⟩
+  rw [(C08_future_relay res _ n w h hs hl).1 hd, hrel k]
+
+/-- The scheduler side (`Remote::poll`): an async task that was cancelled
+    (`keep_running = false`) finishes at its next poll without touching its
+    future / stream: nothing is delivered. -/
+theorem C08_async_cancelled_silent (w : TW) (k : TaskId) (t : Task)
+    (hk : w.sched.tasks[k]? = some t) (hd : t.done = false) (hod : t.outerDelay = none)
+    (hot : t.outerTimer = none) (hr : t.rep = none) (hc : t.keepRunning = false) :
+    (w.pollTask k).log = w.log ∧ (w.pollTask k).srcRest = w.srcRest := by
+  unfold TW.pollTask
+  rw [pollPre_plain w.sched k t hk hd hod hot hr]
+  simp [hc]
+
+/-- … and one that was not cancelled polls its body (`FutureTask::poll` / the
+    stream driver) exactly once per poll of the task: `Ready` stores the value in
+    the handle and finishes the task, `Pending` leaves it in the executor, ready
+    again iff it woke itself (`TW.afterAsync`). -/
+theorem C08_async_task_poll (w : TW) (k : TaskId) (t : Task)
+    (hk : w.sched.tasks[k]? = some t) (hd : t.done = false) (hod : t.outerDelay = none)
+    (hot : t.outerTimer = none) (hr : t.rep = none) (hc : t.keepRunning = true)
+    (hb : t.body.isAsync = true) :
+    w.pollTask k =
+      ({ w with sched := w.sched.setTask k { t with woken := false, outerTimer := none } } : TW).afterAsync
+        k t.body := by
+  unfold TW.pollTask
+  rw [pollPre_plain w.sched k t hk hd hod hot hr]
+  simp only [hc, if_true, hb, TW.afterAsync]
+  generalize TW.runAsync _ t.body = r
+  obtain ⟨w1, o⟩ := r
+  cases o <;> rfl
+
+/-! Non-vacuity: a concrete script with a pending step and an error in the middle. -/
+example : relayStream true [.ready (.int 1), .pending, .err 5, .ready (.int 2)]
+    = [.next (.int 1), .error 5] := rfl
+example : relayStream false [.ready (.int 1), .pending, .ready (.int 2)]
+    = [.next (.int 1), .next (.int 2), .complete] := rfl
+example :
+    (drivePolls (TW.pollStream true [.ready (.int 1), .pending, .err 5, .ready (.int 2)] false 1) 2
+      { src := .stream true [.ready (.int 1), .pending, .err 5, .ready (.int 2)] false, stages := [],
+        srcRest := [.ready (.int 1), .pending, .err 5, .ready (.int 2)] }).1.log
+      = [.next (.int 1), .error 5] := by decide
+example :
+    (drivePolls (fun w => w.pollFuture false) 3
+      { src := .future false [.pending, .pending, .ready (.int 7)], stages := [],
+        srcRest := [.pending, .pending, .ready (.int 7)] }).1.log
+      = [.next (.int 7), .complete] := by decide
 
 end Rx.T
